@@ -253,6 +253,8 @@ META["explanation"] += " " + 'Also (round 11): q->head / q->tail are written by 
 
 META["explanation"] += " " + 'Also (rounds 11-12): head cmpxchg decides who returns / retires, one snapshot of q->head per attempt, make_dummy / enqueue_dummy / init shapes.'
 
+META["explanation"] += " " + 'Also (round 14): shared words are read with volatile / atomic loads in every API function; no pure / const attribute on the public prototypes.'
+
 RULES = [
     ("C12.proto", lambda c, r: __import__("sa.attrs", fromlist=["x"]).rule_nopure(c, r, "C12.proto", '^_*cds_lfq_', "rculfqueue", 4)),   # compiler-visible contract of the public prototypes: pure / const would let an optimised caller poll once
     ("C12.who", rule_who),
